@@ -171,8 +171,13 @@ def run_go(ops_path, out_path, mode=("run",), timeout=3600, env=None):
     if env:
         e.update(env)
     with open(ops_path) as i, open(out_path, "w") as o:
-        p = subprocess.run([os.path.join(BUILD, "harness")] + list(mode), stdin=i, stdout=o, stderr=subprocess.PIPE,
-                           text=True, timeout=timeout, env=e)
+        try:
+            p = subprocess.run([os.path.join(BUILD, "harness")] + list(mode), stdin=i, stdout=o, stderr=subprocess.PIPE,
+                               text=True, timeout=timeout, env=e)
+        except subprocess.TimeoutExpired:
+            return 124, "harness did not finish within %d s" % timeout
+    if p.returncode == 3:
+        return 0, "hang reported on the last line written"   # the short stream is turned into a disagreement / failing input
     return p.returncode, p.stderr
 
 
